@@ -50,6 +50,7 @@ def check(repo, col, tier):
     _pair(repo, col)
     view_trainables(repo, col, "R-C10-viewtrain")
     filter_rows(repo, col, "R-C10-viewtrain")
+    trainable_count(repo, col, "R-C10-viewtrain")
     _tojax(repo, col)
     # a group that shares a trainable must still name its own compartments after set_ncomp renumbered the rows (shared with C13/C19)
     from . import c13 as _c13
@@ -706,6 +707,33 @@ def view_trainables(repo, col, R):
                   f"the count becomes {v.short(80)}", node=s_.node)
     if not cnt:
         col.unk(R, fi, "the base's number of trainable parameters goes down by the view's", "no count update found", node=fi.node)
+
+
+def trainable_count(repo, col, R):
+    """make_trainable adds what it created to the module's count (views and `delete_trainables` subtract from it), and the default
+    initial value of each new parameter is the mean over ITS OWN rows (axis 1 of the (parameters x rows) table; NaN padding ignored)."""
+    fi = repo.method("Module", "make_trainable")
+    ex = idx.expander(repo, fi)
+    cnt = [s_ for s_ in ex.stores if s_.kind == "attr" and s_.key.name == "num_trainable_params"]
+    if not cnt:
+        col.unk(R, fi, "make_trainable adds the number of created parameters to the module's count", "count update not found", node=fi.node)
+    for s_ in cnt:
+        v = s_.value
+        prev = lambda t: t.op == "attr" and t.name == "num_trainable_params"
+        ok = v.op == "binop" and v.name == "+" and len(v.args) == 2 and (prev(v.args[0]) != prev(v.args[1])) and \
+            T.find(v, lambda x: x.op == "call" and x.name == "len") is not None
+        col.check(ok, R, fi, "make_trainable adds the number of created parameters to the module's count", "count += len(indices_per_param)",
+                  f"the count becomes {v.short(80)}: earlier trainables are forgotten (a view's count and delete_trainables() subtract from it)", node=s_.node)
+    app = [s_ for s_ in ex.stores if s_.kind == "mcall" and s_.key.name == "append" and Classifier._is_named(s_.base, "trainable_params")]
+    for s_ in app:
+        nm = T.find(s_.value, lambda x: x.op == "mcall" and x.name in ("nanmean", "mean", "nanmedian", "median"))
+        if nm is None:
+            continue
+        ax = nm.kw.get("axis") or next((a_ for a_ in nm.args[2:3]), None)
+        ok = nm.name == "nanmean" and ax is not None and ax.op == "const" and ax.name in (1, -1)
+        col.check(ok, R, fi, "the default initial value of a new parameter is the NaN-ignoring mean over its own rows", "jnp.nanmean(param_vals, axis=1)",
+                  f"the initial values are `{nm.short(70)}`: " + ("the padding of groups of unequal size (NaN) makes the smaller groups start at NaN" if nm.name == "mean"
+                                                                   else "not one value per created parameter"), node=s_.node)
 
 
 def filter_rows(repo, col, R):
